@@ -22,6 +22,14 @@ UNITS_LOCAL = {"C02": [
          defs=["RKCOMMON_TASKING_INTERNAL", "RKCOMMON_VERIF_SPIN_COUNT=2", "RKCOMMON_VERIF_PIPESIZE_LOG2=0", "C02_POOL_THREADS=2"], mcsched=True, engine="mcsched",
          args={"quick": ["--only-prefix", "schedule_", "--only-prefix", "async_int"], "thorough": ["--only-prefix", "schedule_", "--only-prefix", "async_"]},
          budget={"quick": 120, "thorough": 900}, rule="internal backend, pool of 2, 1-slot pipes (hook H2: the pipe wraps and fills with 2-3 scheduled tasks): " + _RULE, assumptions=_ASSUME),
+    Unit("tasks_internal_tso", ["harness/C02_tasks.cpp"], repo_src=_INT, cxx="g++", flags=TSAN_INSTR,
+         defs=["RKCOMMON_TASKING_INTERNAL", "RKCOMMON_VERIF_SPIN_COUNT=2", "C02_POOL_THREADS=2"], mcsched=True, engine="mcsched",
+         args={"quick": ["--tso-volatile", "--only-prefix", "schedule_x_1", "--only-prefix", "schedule_x_2", "--only-prefix", "async_int_1"],
+               "thorough": ["--tso-volatile", "--only-prefix", "schedule_x_", "--only-prefix", "async_int", "--only-prefix", "repend_x_22"],
+               "replay": ["--tso-volatile"]},
+         budget={"quick": 200, "thorough": 1200},
+         rule="internal backend, pool of 2, with store buffering ALSO for enkiTS's volatile stores (x86-TSO: a store may stay behind while its thread performs loads; "
+              "holding a store back costs one deviation): " + _RULE, assumptions=_ASSUME),
     Unit("tasks_internal_t1", ["harness/C02_tasks.cpp"], repo_src=_INT, cxx="g++", flags=TSAN_INSTR,
          defs=["RKCOMMON_TASKING_INTERNAL", "RKCOMMON_VERIF_SPIN_COUNT=2", "C02_POOL_THREADS=1"], mcsched=True, engine="mcsched",
          budget={"quick": 120, "thorough": 600}, rule="internal backend, pool of 1 (no worker threads): " + _RULE, assumptions=_ASSUME),
